@@ -16,7 +16,7 @@ from mc import core
 LEVEL = 'model_checking'
 RULE = ('every digraph in the bound (edge set incl. self-loops and back edges) x every comb/seq kind assignment x every '
         'instantiation order (n!) x placement (flat / split over two structural children / late addition after a first '
-        'getSimulator() / class-identity variants for n <= 2: behaviour added by a subclass of an instantiated port-only class, a '
+        'getSimulator() / Simulator(hw) instantiated directly on a system that already has its simulator / class-identity variants for n <= 2: behaviour added by a subclass of an instantiated port-only class, a '
         'structural class with the short name of the primitive); kinds c (comb), s (register), m (Mealy leaf with clock() and propagate()); for accepted netlists BFS over register states x all 2^n input vectors with a plain-Python '
         'netlist evaluator as reference, topological-order and fixpoint checks in every state; netlists with a '
         'combinational cycle must be refused. non-trivial = input vector on which some node output is 1')
@@ -286,6 +286,10 @@ def run_design(n, edges, kinds, order, placement, res):
         if c.after:
             c.after()
         c.sim = c.sys.getSimulator()
+        if placement[0] == 'direct':
+            # the simulator class instantiated directly for a system that already owns its simulator (what a tool does)
+            from py4hw.simulation import Simulator
+            c.sim = Simulator(c.sys)
         c.regs = {j: ((0, 0) if kinds[j] == 's' else 0) for j in range(n) if kinds[j] in 'sm'}
         return c
 
@@ -301,6 +305,33 @@ def run_design(n, edges, kinds, order, placement, res):
         res['cyclic'] += 1
         if raised is None:
             viol('cycle_accepted', {'note': 'netlist with a combinational cycle was accepted by getSimulator()'})
+            return
+        # the refusal is not a one-off: asking again for the simulator of the same (still cyclic) netlist raises again
+        for attempt in (2, 3):
+            try:
+                with core.quiet():
+                    hw2 = None
+                    cc = build(n, edges, kinds, order, placement)
+                    k = placement[1] if placement[0] == 'late' else len(cc.order)
+                    for j in cc.order[:k]:
+                        cc.inst(j)
+                    try:
+                        cc.sys.getSimulator()
+                    except Exception:
+                        pass
+                    for j in cc.order[k:]:
+                        cc.inst(j)
+                    try:
+                        cc.sys.getSimulator()
+                    except Exception:
+                        pass
+                    cc.sys.getSimulator()           # the retry
+                viol('cycle_accepted_on_retry', {'note': 'a second getSimulator() on the refused cyclic netlist did not raise'})
+                core.reset_prepared()
+                break
+            except Exception:
+                core.reset_prepared()
+            break
         return
     if raised is not None:
         viol('acyclic_refused', {'exception': repr(raised)[:200]})
@@ -317,11 +348,16 @@ def run_design(n, edges, kinds, order, placement, res):
     def step(c, x):
         for w, v in zip(c.free, x):
             w.put(v)
-        c.sim.propagateAll()
+        # a clock call that advances no cycle is still a clock call: the netlist sits at its fixpoint afterwards
+        c.sim.clk(0)
         vals = model_eval(n, edges, kinds, c.regs, x)
         c.pre = None
         got = [(a.value, b.value) for a, b in c.o]
         if got != vals:
+            c.pre = {'sigkey': 'wrong_values_after_clk0', 'expected': vals, 'got': got, 'inputs': list(x)}
+        c.sim.propagateAll()
+        got = [(a.value, b.value) for a, b in c.o]
+        if got != vals and c.pre is None:
             c.pre = {'sigkey': 'wrong_values_before_edge', 'expected': vals, 'got': got, 'inputs': list(x)}
         c.sim.clk(1)
         c.regs = model_next(n, edges, kinds, vals, x)
@@ -372,6 +408,8 @@ def placements(n, mode):
     out = [('flat',)]
     if n <= 2 and mode in ('full', 'some'):
         out += [('cls', 'subfirst'), ('cls', 'sublast'), ('cls', 'samename')]
+    if mode in ('full', 'some'):
+        out += [('direct',)]
     if mode in ('full',):
         out += [('split', m) for m in range(1, (1 << n) - 1)]
         out += [('late', k) for k in range(1, n)]
@@ -592,26 +630,44 @@ def replay(v):
         else:
             for j in c.order:
                 c.inst(j)
+        if c.after:
+            c.after()
         c.sim = c.sys.getSimulator()
+        if pl[0] == 'direct':
+            from py4hw.simulation import Simulator
+            c.sim = Simulator(c.sys)
         out['raised'] = None
     except Exception as e:
         out['raised'] = repr(e)[:200]
         out['violates'] = not expect_refuse
+        if expect_refuse:
+            # the refusal must be repeatable
+            try:
+                c.sys.getSimulator()
+                out['second_getSimulator_raised'] = None
+                out['violates'] = True
+            except Exception as e2:
+                out['second_getSimulator_raised'] = repr(e2)[:200]
+        core.reset_prepared()
         return out
     if expect_refuse:
         out['violates'] = True
         return out
-    c.regs = {j: (0, 0) for j in range(n) if kinds[j] == 's'}
+    c.regs = {j: ((0, 0) if kinds[j] == 's' else 0) for j in range(n) if kinds[j] in 'sm'}
     bad = structural_check(c) if pl[0] == 'late' else (structural_check(c) or fixpoint_check(c) or value_check(c, (0,) * n))
     steps = []
     for x in v.get('trace', []):
         for w, val in zip(c.free, x):
             w.put(val)
-        c.sim.propagateAll()
+        c.sim.clk(0)
         vals = model_eval(n, edges, kinds, c.regs, x)
+        b0 = None
+        if [(a.value, b2.value) for a, b2 in c.o] != vals:
+            b0 = {'sigkey': 'wrong_values_after_clk0', 'expected': vals, 'got': [(a.value, b2.value) for a, b2 in c.o]}
+        c.sim.propagateAll()
         c.sim.clk(1)
         c.regs = model_next(n, edges, kinds, vals, x)
-        b = structural_check(c) or fixpoint_check(c) or value_check(c, x)
+        b = b0 or structural_check(c) or fixpoint_check(c) or value_check(c, x)
         steps.append({'inputs': list(x), 'got': [(a.value, b2.value) for a, b2 in c.o], 'problem': b})
         bad = bad or b
     out['steps'] = steps
